@@ -186,6 +186,16 @@ func c16export(rep lib.Report, sh *c16shared, p int, u int) string {
 		// happens-before edges between them and could hide races).
 		t += fmt.Sprintf("{{/* %d */}}", u)
 	}
+	switch u % 11 { // the same template with other white space around it, exported by several goroutines at once
+	case 1:
+		t = "\n" + t
+	case 2:
+		t += " \n"
+	case 3:
+		t = " \t" + t + "\n\n"
+	case 4:
+		t = "\ufeff" + t
+	}
 	switch p / len(sh.tmpls) {
 	case 0:
 		out, isNil, err, pan := rep.ExportWithString(t)
